@@ -296,3 +296,16 @@ Theorem deserialize_stop_ends_the_work : forall t v script k,
   (forall j, (k <= j)%N -> script j = false) ->
   c03_tail_ok k (fst (run script (deserialize t v) [])) (snd (run script (deserialize t v) [])) = true.
 Proof. intros t v script k H. apply stops_tail_ok; [apply deser_stops|exact H]. Qed.
+
+(** Under EVERY script: a report (or hand-over) answered Break is immediately followed by the
+    hand-over of its result to the enclosing container - or it is the last call and its result is
+    what [deserialize] returns. Nothing else happens in between. *)
+Theorem deserialize_stop_next : forall t v script pre c post,
+  snd (run script (deserialize t v) []) = pre ++ c :: post ->
+  creates c = true -> script (N.of_nat (List.length pre)) = false ->
+  next_ok (N.of_nat (List.length pre)) post
+  /\ (post = [] -> fst (run script (deserialize t v) []) = RErr (N.of_nat (List.length pre))).
+Proof.
+  intros t v script pre c post Hrun Hc Hsc.
+  apply (stops_next cres (deserialize t v) (deser_stops t 0%N v Origin) script [] (pre ++ c :: post) Hrun pre c post eq_refl Hc Hsc).
+Qed.
